@@ -97,29 +97,10 @@ func lookupLists(p *Prog, li *lookupInfo, f *ssa.Function) ([]planList, error) {
 			}
 			// the token literal built under this call's success
 			role := ""
-			for _, b2 := range f.Blocks {
-				for _, in2 := range b2.Instrs {
-					st, ok := in2.(*ssa.Store)
-					if !ok {
-						continue
-					}
-					fa, ok := st.Addr.(*ssa.FieldAddr)
-					if !ok || fieldOf(fa).Field != "value" {
-						continue
-					}
-					if ex, ok := st.Val.(*ssa.Extract); ok && ex.Tuple == ssa.Value(c) {
-						// sibling store of role on the same alloc
-						for _, r := range *fa.X.Referrers() {
-							if fa2, ok := r.(*ssa.FieldAddr); ok && fieldOf(fa2).Field == "role" {
-								for _, rr := range *fa2.Referrers() {
-									if s2, ok := rr.(*ssa.Store); ok && s2.Addr == ssa.Value(fa2) {
-										if k, ok := s2.Val.(*ssa.Const); ok && k.Value != nil {
-											role = k.Value.ExactString()
-										}
-									}
-								}
-							}
-						}
+			for _, tl := range tokenLitsIn(p, f) {
+				if ex, ok := tl.Value.(*ssa.Extract); ok && ex.Tuple == ssa.Value(c) {
+					if k, ok := tl.Role.(*ssa.Const); ok && k.Value != nil {
+						role = k.Value.ExactString()
 					}
 				}
 			}
@@ -174,40 +155,18 @@ func tokenBuilderCall(p *Prog, li *lookupInfo, c *ssa.Call, f *ssa.Function) (pl
 	}
 	// the token literal: value = result #1 of the dynamic call, role = parameter or constant
 	role := ""
-	for _, b := range h.Blocks {
-		for _, in := range b.Instrs {
-			st, ok := in.(*ssa.Store)
-			if !ok {
-				continue
-			}
-			fa, ok := st.Addr.(*ssa.FieldAddr)
-			if !ok || fieldOf(fa).Field != "value" {
-				continue
-			}
-			ex, ok := st.Val.(*ssa.Extract)
-			if !ok || ex.Tuple != ssa.Value(dyn) {
-				continue
-			}
-			for _, r := range *fa.X.Referrers() {
-				fa2, ok := r.(*ssa.FieldAddr)
-				if !ok || fieldOf(fa2).Field != "role" {
-					continue
-				}
-				for _, rr := range *fa2.Referrers() {
-					s2, ok := rr.(*ssa.Store)
-					if !ok || s2.Addr != ssa.Value(fa2) {
-						continue
-					}
-					if k, ok := s2.Val.(*ssa.Const); ok && k.Value != nil {
-						role = k.Value.ExactString()
-					}
-					for i, prm := range h.Params {
-						if s2.Val == ssa.Value(prm) && i < len(c.Call.Args) {
-							if k, ok := c.Call.Args[i].(*ssa.Const); ok && k.Value != nil {
-								role = k.Value.ExactString()
-							}
-						}
-					}
+	for _, tl := range tokenLitsIn(p, h) {
+		ex, ok := tl.Value.(*ssa.Extract)
+		if !ok || ex.Tuple != ssa.Value(dyn) {
+			continue
+		}
+		if k, ok := tl.Role.(*ssa.Const); ok && k.Value != nil {
+			role = k.Value.ExactString()
+		}
+		for i, prm := range h.Params {
+			if tl.Role == ssa.Value(prm) && i < len(c.Call.Args) {
+				if k, ok := c.Call.Args[i].(*ssa.Const); ok && k.Value != nil {
+					role = k.Value.ExactString()
 				}
 			}
 		}
